@@ -15,7 +15,13 @@ Open Scope N_scope.
 
 Inductive case :=
 | CSched (events : list ev) (obs_resp : list (N * option value)) (obs_fetches : list N)
-| CResolve (oks : list bool) (has_fallback : bool) (observed : answer).
+| CResolve (oks : list bool) (has_fallback : bool) (observed : answer)
+(* a live reload through the real Proxy.ApplyLiveConfig: route lists A and B as flat lists of
+   (field path, printed value), the route generation read by status requests before and after, and
+   whether a ping started after the reload contacted the backend again (the first ping had been
+   answered by the backend and cached with a long TTL) *)
+| CReload (field : bytes) (routes_a routes_b : list (list (bytes * bytes)))
+          (gen_before gen_after : N) (fresh : bool).
 
 (* ---------- tables read off the event list (event n, counted from 0, happens at time n+1) ---------- *)
 
@@ -126,6 +132,33 @@ Definition beq_answer (a b : answer) : bool :=
   | _, _ => false
   end.
 
+Fixpoint beq_fields (a b : list (bytes * bytes)) : bool :=
+  match a, b with
+  | [], [] => true
+  | (k, v) :: a', (k', v') :: b' => beq_bytes k k' && beq_bytes v v' && beq_fields a' b'
+  | _, _ => false
+  end.
+
+Fixpoint beq_routes (a b : list (list (bytes * bytes))) : bool :=
+  match a, b with
+  | [], [] => true
+  | x :: a', y :: b' => beq_fields x y && beq_routes a' b'
+  | _, _ => false
+  end.
+
+(* the model's reload: request 0 fetches and is cached (ttl 100, no time passes); IF the two route
+   lists differ the cache is reset and the route generation (part of the key) advances; request 1
+   starts afterwards.  Result: was request 1 NOT answered in its first critical section, i.e. does
+   it need a fresh fetch? *)
+Definition reload_model (differ : bool) (g : N) : bool * N :=
+  let k0 : key := ([98], 765, g) in
+  let g' := if differ then g + 1 else g in
+  let k1 : key := ([98], 765, g') in
+  let es := [ECs1 0 k0 100; EDoChan 0; EComplete 0 true]
+            ++ (if differ then [EReset] else []) ++ [ECs1 1 k1 100] in
+  let s := run_events es in
+  (negb (existsb (fun r => r_id r =? 1) (responses s)), g').
+
 Definition judge (c : case) : verdict :=
   match c with
   | CSched es obs_resp fetched =>
@@ -137,4 +170,12 @@ Definition judge (c : case) : verdict :=
       (* the property's clause itself: the fallback only if every backend failed (and then, if
          configured, always); a status only from the first backend that is up *)
       if beq_answer observed (resolve oks fb) then VOk else VViolation
+  | CReload _ ra rb g0 g1 fresh =>
+      let differ := negb (beq_routes ra rb) in        (* computed here, not by the Go side *)
+      (* the property: routes were reloaded with a difference, the request started afterwards, and
+         it was answered from the pre-reload cache entry *)
+      if differ && negb fresh then VViolation
+      else
+        let '(mfresh, mg) := reload_model differ g0 in
+        if Bool.eqb fresh mfresh && (g1 =? mg) then VOk else VMismatch
   end.
